@@ -55,6 +55,10 @@ def cases(tier, seed):
                 yield dict(kind=kind, mid=mid, outcome=outcome, pcid=rnd.choice([1, 3, 5, 7, 9]),
                            variant=rnd.choice(['success', 'failure', 'mixed']),
                            seed=seed * 1009 + i)
+    for j in range(150 if tier == 'quick' else 6000):
+        yield dict(kind='concurrent', mid=rnd.randrange(65536), outcome='success',
+                   pcid=rnd.choice([1, 3, 5]), variant='mixed', npeers=rnd.choice([2, 2, 3]),
+                   seed=seed * 100019 + j)
     for j in range(n):
         yield dict(kind=rnd.choice(kinds), mid=rnd.randrange(65536),
                    outcome=rnd.choice(['success', 'warning', 'failure', 'raise']),
@@ -68,7 +72,126 @@ STATUS = {'success': 0x0000, 'warning': 0xB000, 'failure': 0xA700}
 def run_case(case):
     if case['kind'] == 'get_store_rsp':
         return _get_case(case)
+    if case['kind'] == 'concurrent':
+        return _concurrent_case(case)
     return _scp_case(case)
+
+
+SFIND = '1.2.840.10008.5.1.4.1.2.2.1'
+
+
+def _concurrent_case(case):
+    """Several associations served at the same time by one AE: each one's responses must
+    correlate with ITS request (responses of the same class are alive together)."""
+    from pynetdicom2 import applicationentity, sopclass
+    import pydicom
+    rnd = random.Random('c17c/%s' % case['seed'])
+    world = SimWorld('c17/%s/c' % case['seed'], with_fs=True)
+    viol = []
+
+    def v(rule, detail):
+        viol.append({'sig': 'C17 %s provider=concurrent' % rule,
+                     'detail': '%s\ncase %r\nhandler errors %r' % (detail, case,
+                                                                   world.handler_errors[:1])})
+    try:
+        class Srv(applicationentity.AE):
+            def on_receive_find(self, context, ds):
+                k = int(str(ds.PatientID))
+
+                def gen():
+                    for j in range(k):
+                        world.sim.sleep(rnd.choice([0.01, 0.2, 0.5]))
+                        d = pydicom.Dataset()
+                        d.PatientName = '%s/%d' % (ds.PatientName, j)
+                        yield d, 0xFF00
+                return gen()
+
+            def on_receive_store(self, context, ds):
+                world.sim.sleep(rnd.choice([0.0, 0.3]))
+                return 0
+        srv = world.make_ae(Srv, 'SRV', 11112, [rc.IMPLICIT_LE], 16384)
+        srv.timeout = 120
+
+        def store2(asce, ctx, msg):
+            return sopclass.storage_scp(asce, ctx, msg)
+        store2.sop_classes = [CT, MR]
+        store2.store_in_file = True
+        srv.add_scp(sopclass.verification_scp).add_scp(store2).add_scp(sopclass.qr_find_scp)
+        world.serve_ae(srv, ADDR)
+        plans = []
+        for i in range(case['npeers']):
+            plans.append(dict(kind=rnd.choice(['find', 'find', 'store', 'echo']),
+                              mid=rnd.choice(MIDS + [rnd.randrange(65536)]),
+                              sop=rnd.choice([FIND, SFIND]), k=rnd.randint(1, 3),
+                              pcid=rnd.choice([1, 3]), inst='1.2.3.%d.%d' % (i, rnd.randrange(9999)),
+                              store_sop=rnd.choice([CT, MR]), got=[]))
+        for i, pl in enumerate(plans):
+            def script(peer, pl=pl, i=i):
+                p = peer.associate()
+                if not isinstance(p, dict) or p['kind'] != 'A-ASSOCIATE-AC':
+                    pl['noassoc'] = True
+                    return
+                world.sim.sleep(rnd.choice([0.0, 0.05, 0.3]))
+                if pl['kind'] == 'find':
+                    q = pydicom.Dataset()
+                    q.PatientName = 'P%d' % i
+                    q.PatientID = str(pl['k'])
+                    peer.send_message(pl['pcid'], {0x0002: pl['sop'], 0x0100: 0x0020,
+                                                   0x0110: pl['mid'], 0x0700: 0, 0x0800: 1},
+                                      enc_ds(q))
+                    want = pl['k'] + 1
+                elif pl['kind'] == 'store':
+                    d = pydicom.Dataset()
+                    d.SOPClassUID = pl['store_sop']
+                    d.SOPInstanceUID = pl['inst']
+                    d.PatientName = 'S%d' % i
+                    peer.send_message(pl['pcid'], {0x0002: pl['store_sop'], 0x0100: 0x0001,
+                                                   0x0110: pl['mid'], 0x0700: 0, 0x0800: 1,
+                                                   0x1000: pl['inst']}, enc_ds(d))
+                    want = 1
+                else:
+                    peer.send_message(pl['pcid'], {0x0002: rc.VERIFICATION, 0x0100: 0x0030,
+                                                   0x0110: pl['mid'], 0x0800: 0x0101})
+                    want = 1
+                for _ in range(want):
+                    m = peer.read_message(timeout=100.0)
+                    if not isinstance(m, dict) or 'fields' not in m:
+                        break
+                    pl['got'].append(m)
+                pl['want'] = want
+                if not peer.eof and not peer.reset:
+                    peer.release()
+            sop_for = {'find': pl['sop'], 'store': pl['store_sop'], 'echo': rc.VERIFICATION}[pl['kind']]
+            ctxs = ((pl['pcid'], sop_for, (rc.IMPLICIT_LE,)),)
+            peer = peers.ScriptedRequestor(world.sim, world.net, ADDR, ctxs, script=script)
+            world.spawn(peer.run, 'scu%d' % i, role='user')
+        world.run(tmax=900)
+        world.drain(3.0)
+        for i, pl in enumerate(plans):
+            if pl.get('noassoc'):
+                continue
+            if len(pl['got']) != pl.get('want'):
+                v('request-not-answered', 'peer %d (%s): %d of %r responses' % (
+                    i, pl['kind'], len(pl['got']), pl.get('want')))
+            sop_for = {'find': pl['sop'], 'store': pl['store_sop'], 'echo': rc.VERIFICATION}[pl['kind']]
+            for m in pl['got']:
+                f = m['fields']
+                if f.get(0x0120) != pl['mid']:
+                    v('message-id-being-responded-to-wrong',
+                      'peer %d (%s) asked with id %d, got a response for %r; other peers %r' % (
+                          i, pl['kind'], pl['mid'], f.get(0x0120),
+                          [(p['kind'], p['mid']) for p in plans]))
+                if f.get(0x0002) != sop_for:
+                    v('sop-class-not-repeated', 'peer %d (%s) class %s, response %r' % (
+                        i, pl['kind'], sop_for, f.get(0x0002)))
+                if pl['kind'] == 'store' and f.get(0x1000) != pl['inst']:
+                    v('sop-instance-not-repeated', 'peer %d sent %s got %r' % (i, pl['inst'],
+                                                                              f.get(0x1000)))
+                if m['pcid'] != pl['pcid']:
+                    v('response-on-other-context', 'peer %d' % i)
+        return _fin(world, viol, case)
+    finally:
+        world.close()
 
 
 def _scp_case(case):
